@@ -8,14 +8,16 @@ from typing import Iterator
 from sa.cfg import CFG, CNode
 from sa.srcmodel import FunctionInfo, Module, Program, dotted, norm, parent, unparse, walk_no_nested
 
-_cfg_cache: dict[int, CFG] = {}
+_cfg_cache: dict[int, tuple[ast.AST, CFG]] = {}
 
 
 def cfg_of(fn: FunctionInfo) -> CFG:
     key = id(fn.node)
-    if key not in _cfg_cache:
-        _cfg_cache[key] = CFG(fn.node)
-    return _cfg_cache[key]
+    hit = _cfg_cache.get(key)
+    if hit is None or hit[0] is not fn.node:  # the node is kept alive by the cache entry, so ids cannot be recycled
+        hit = (fn.node, CFG(fn.node))
+        _cfg_cache[key] = hit
+    return hit[1]
 
 
 def ext_callee(prog: Program, mod: Module, call: ast.Call) -> str | None:
